@@ -287,7 +287,9 @@ class Matcher(object):
         elif self.supports("positions"):
             return [Span(pos) for pos in self.value_as("positions")]
         else:
-            raise Exception("Field does not support spans")
+            from whoosh.query.qcore import QueryError
+
+            raise QueryError("Field does not support spans")
 
     def skip_to(self, id):
         """Moves this matcher to the first posting with an ID equal to or
@@ -534,7 +536,9 @@ class ListMatcher(Matcher):
         return decoder(self.value())
 
     def supports(self, astype):
-        return self._format.supports(astype)
+        # (A list matcher made for a query without postings of its own, e.g.
+        # a pre-loaded range, has no format)
+        return bool(self._format) and self._format.supports(astype)
 
     def next(self):
         self._i += 1
